@@ -44,6 +44,11 @@ CHECKS = {
         text="Clean LLRs (|LLR| 0.5..50) of every codeword (k<=8) or seeded codewords are decoded by BP (iterations 1..20, exact/Taylor), min-sum (scaling/offset/normalized), Wagner and soft Reed-Muller on a fixed LDPC matrix, generated sparse H and catalogue codes, output shape (...,k); Wagner's output is compared with the maximum correlation over all even-weight words on generated tie-free real vectors; BP soft outputs equal brute-force bitwise posteriors on generated cycle-free graphs (inside the decoder's clipping range); min-sum soft outputs equal a textbook flooding min-sum and are homogeneous under input rescaling (offset 0, inside the +-500 clamp); a single weak wrong-sign LLR is corrected.",
         note="Trusted base: kverif/ref/soft.py (self-checked). BP exactness demanded only when the reference keeps check messages < 7.0; min-sum offset compared only where scale*min > offset; generated H have no all-zero column and k >= 1.",
         design="4/C10"),
+    "C11": dict(
+        technique="enumeration of (N,k,frozen,interleaving) cells and all 2^k messages per cell; Hypothesis-generated user masks and real LLR vectors; oracles: pinned 5G sequence, Kronecker-power transform, float64 textbook SC recursion",
+        text="For every N in 2..32 with every k, sampled (N,k) up to 1024, both frozen values and interleaving options, the information set is compared with an independent parse of the pinned 5G reliability sequence, every codeword with u.F^(x m) (bit-reversed when polar_i) for all 2^k messages (k<=10) in batches of 1..8, the generator matrix with the Kronecker power; SC (sum-product, min-sum) and BP-polar return the message from clean LLRs of magnitude 0.5..100; for generated real LLR vectors the SC output equals a float64 textbook SC; user-supplied masks are honoured; BP-polar rejects polar_i=True.",
+        note="The 5G sequence is pinned in /verif/data/polar_5g_q.json (sha256 of the repository CSV recorded; structural invariants re-checked each run). Sum-product comparison restricted to reference magnitudes <=12 and margins >=1e-2 (float32 saturation), min-sum to margins >=1e-4; skipped cases are counted.",
+        design="4/C11"),
     "C14": dict(
         technique="exhaustive pairwise examination of every published and mapper-induced constellation table; Gray utilities exhaustively below 2^16, Hypothesis-generated up to 2^60, plus an atheris (libFuzzer) campaign with the oracle inside the target",
         text="Every scheme's published table and the table induced by modulating every bit group are checked for 2^b distinct points, bijective labels, unit mean energy where requested/by definition, agreement with each other, and the Gray property on all nearest-neighbour pairs; binary_to_gray/gray_to_binary and their array forms are compared with n^(n>>1), inverted both ways and checked for unit Hamming distance of consecutive integers on all n<2^16 and generated n<2^60; a coverage-guided campaign looks for special-cased constants.",
@@ -54,6 +59,16 @@ CHECKS = {
         text="Every soft demodulator (all schemes/options, noise variances 1e-3..1e3) and synthetic +-mag LLR streams are paired with every LLR consumer (10 thresholder configurations in LLR mode, ensemble, repetition soft-bit decoder, llr_to_bits, sign_to_bin, BP/min-sum/Wagner/SC/polar-BP/soft-RM decoders through a codeword); the consumer must reproduce the transmitted bits. LLRThresholder soft output equals sigmoid(-LLR) and is monotone; llr_to_bits(+x)=0, (-x)=1.",
         note="Data-dependent thresholders are only judged where their threshold provably separates the two clusters (constant-magnitude streams, Otsu at bin resolution, Dynamic for |LLR|>=0.25); skipped cases are counted in the evidence. Decoders get LLRs clipped to +-30 with |LLR|>=0.05.",
         design="4/C15"),
+    "C16": dict(
+        technique="Hypothesis RuleBasedStateMachine (update/compute/reset/forward, invariant after every step) + exhaustive enumeration of all operation sequences up to length 4 (thorough 6) against exact integer reference counters; generated and adversarial one-shot tensor pairs; generated partitions/orderings",
+        text="BitErrorRate, BlockErrorRate and its SER/FER aliases and the StandardMetrics helpers are compared with exact integer counts on all-equal, all-different, every single-difference position and generated tensor pairs (1-D..3-D, real and complex, divisor block sizes; non-divisors must raise), with symmetry, zero-iff-equal and BER<=BLER<=min(1,B.BER); streaming state is checked after every step of every op sequence up to length 4/6 over a pool of unequal batches, of Hypothesis stateful histories up to 50/200 steps, and for generated cuts and orderings of one data set.",
+        note="Rates compared as float32(count/total) within one float32 ulp. BlockErrorRate takes dim 0 as batch; 1-D inputs with block_size>1 raise by its documented divisibility rule and count as rejections.",
+        design="4/C16"),
+    "C17": dict(
+        technique="recording stages + Hypothesis stateful add/remove/run histories against a list model; exhaustive enumeration of all feasible thread completion permutations forced by harness-owned gates; exhaustive condition tables for branching; enumerated encoder-instance patterns for multiple access",
+        text="Sequential/Configurable/DeepJSCC/channel-code pipelines must call each recording stage once, in declared order, with forwarded args/kwargs, under histories of add_step/remove_step/run (out-of-range remove raises); ParallelModel is run with every feasible completion permutation of 1..4 (thorough 5) branches for worker counts 1..n and default and must return each result under its branch name and hand the aggregator the declared order; BranchingModel runs exactly the first true branch else default else raises; FeedbackChannelModel performs exactly max_iterations rounds in the documented order; MultipleAccessChannelModel encodes user i with its own encoder, sums, and calls constraint and channel once.",
+        note="The harness controls completion order only (Events + 10 ms settle); preemption inside one stage is out of reach. Channel-code order is the class's declared step list (encoder, modulator, constraint, channel, demodulator, decoder).",
+        design="4/C17"),
     "C18": dict(
         technique="exhaustive enumeration of small domains + Hypothesis-generated operands against an independent int-bitmask GF(2)[X]/GF(2^m) reference",
         text="Every clause of C18 (Euclidean division, gcd/Bezout, lcm, ring laws; field axioms, primitive order, inverse, power, trace, conjugates, minimal polynomial) is evaluated on all polynomial pairs of degree < 8, all field pairs for m <= 7 (thorough: <= 10), all triples for m <= 4 (thorough: 5), every element for m <= 8 and on Hypothesis-generated operands up to degree 200 / m = 16, and compared with a reference that shares no code with kaira. Exploration: exhaustive on the stated finite grids, sampling above them.",
